@@ -233,6 +233,15 @@ func scripts(w *chainx.World, h uint32, committee util.Uint160) []nscript {
 			}
 			add(fmt.Sprintf("%s.find-opts%d", u.n, opts), u.h, "runSafe", prog)
 		}
+		// the remaining option combinations in one invocation: keys only, prefix
+		// removed, backwards with the prefix removed / with values only
+		var mix []any
+		for _, opts := range []int{1, 2, 130, 132} {
+			for _, p := range [][]byte{{}, []byte("a"), []byte("ab"), []byte("d")} {
+				mix = append(mix, []any{chainx.OpFind, p, opts})
+			}
+		}
+		add(u.n+".find-opts-mix", u.h, "runSafe", mix)
 		// reads on top of uncommitted writes of the same invocation: the
 		// historic path has to merge them with what the trie holds
 		add(u.n+".write-then-read", u.h, "run", []any{
